@@ -17,5 +17,5 @@ ModesAll == {"late", "early", "via1d", "proj", "fullbond"}
 LayAll   == {"flat", "all", "kb", "bk"}
 TasksAll == {"contract", "around", "envs"}
 CapsQuick    == {1, 4, 16}
-CapsThorough == {1, 2, 3, 4, 8, 9, 16, 64, 729}
+CapsThorough == {1, 4, 9, 16, 81}
 =============================================================================
